@@ -12,7 +12,7 @@ cleanup() { git -C /repo worktree remove --force "$WT" >/dev/null 2>&1; rm -rf "
 trap cleanup EXIT
 run_demo() { # prints PASS/FAIL
   local rc=0
-  if [ -x "$SRC/demo/run.sh" ]; then (bash "$SRC/demo/run.sh" "$WT") >"$WT/.demo.log" 2>&1 || rc=1
+  if [ -f "$SRC/demo/run.sh" ]; then (bash "$SRC/demo/run.sh" "$WT") >"$WT/.demo.log" 2>&1 || rc=1
   elif [ -f "$SRC/run_demo.sh" ]; then (bash "$SRC/run_demo.sh" "$WT") >"$WT/.demo.log" 2>&1 || rc=1
   else
     : > "$WT/.demo.log"
